@@ -35,7 +35,7 @@ def generate(rng, tier):
     ndefs = 36 if tier == "quick" else 6000
     # every kind of type is made to occur: definition i must use type WANT[i % len(WANT)] somewhere
     WANT = ["MIL_T", "F32_T", "F64_T", "F16LE_T", "S32LE_T", "S8_T", "S12_T", "ENUM_T", "BOOL_T", "U32_T", "OC16_T", "SM8_T",
-            "U33_T", "U64_T", "S64_T", "S48LE_T"]
+            "U33_T", "U64_T", "S64_T", "S48LE_T", "U72_T", "BOOLSTR_T"]
     for i in range(ndefs):
         want = xser.S(WANT[i % len(WANT)])
         for _ in range(60):
@@ -196,6 +196,12 @@ def explain(line, mo, io):
     rawmode = " 1 ((" in line
     if rawmode and "(str " in line and io.startswith("err value") and mo.startswith("dataset"):
         return {"raw_string_as_str"}       # UnicodeDecodeError while converting raw bytes into a 'str' column
+    if io.startswith("err other") and mo.startswith("dataset"):
+        # an integer beyond the widest numpy integer in an (u)int64 column
+        for _apid, _name, dt, cs in cells(mo):
+            if dt in ("uint64", "int64") and any(c.startswith("i") and not (-2 ** 63 <= int(c[1:]) < 2 ** 64) for c in cs):
+                return {"wide_int_overflow"}
+        return None
     d = _diff_columns(mo, io)
     if not d:
         return None
@@ -210,6 +216,9 @@ def explain(line, mo, io):
                 names.add("nul_stripping")
             elif mdt == "infer" and _rounded(a, b):
                 names.add("mixed_column_rounding")
+            elif mdt in ("str", "bytes") and a in ("i0", "i1") and b in ("s" + "True".encode().hex(), "s" + "False".encode().hex(),
+                                                                             "x" + b"True".hex(), "x" + b"False".hex()):
+                names.add("bool_on_text_encoding")
             elif rawmode and mdt == "str" and a.startswith("x") and b.startswith("s") and \
                     (a[1:] == b[1:] or _stripped(a)[1:] == b[1:]):
                 names.add("raw_string_as_str")
